@@ -238,7 +238,8 @@ impl SystemLocality {
     }
 
     pub fn set_entry_value(&mut self, initiator_idx: usize, target_idx: usize, value: u16) {
-        self.entries[initiator_idx * self.initiators.len() + target_idx] = value;
+        assert!(initiator_idx < self.initiators.len() && target_idx < self.targets.len());
+        self.entries[initiator_idx * self.targets.len() + target_idx] = value;
     }
 
     fn len(&self) -> usize {
